@@ -98,7 +98,12 @@ static void note_notify_child (nsync_note n, nsync_note parent) {
 			next = nsync_dll_next_ (n->children, p);
 			nsync_mu_lock (&child->note_mu);
 			if (child->disconnecting == 0) {
+				/* note_notify_child() may release child->note_mu while it
+				   waits for the child's own children; mark the child as
+				   being disconnected meanwhile, as notify() does.  */
+				child->disconnecting++;
 				note_notify_child (child, n);
+				child->disconnecting--;
 			}
 			nsync_mu_unlock (&child->note_mu);
 		}
@@ -207,6 +212,10 @@ void nsync_note_free (nsync_note n) {
 	nsync_dll_element_ *p;
 	nsync_dll_element_ *next;
 	nsync_mu_lock (&n->note_mu);
+	/* If a notification of an ancestor is in the middle of disconnecting *n,
+	   let it finish: the parent pointer read below would otherwise go stale
+	   (and the parent could be freed) while we are not holding n->note_mu.  */
+	nsync_mu_wait (&n->note_mu, &not_disconnecting, n, NULL);
 	n->disconnecting++;
 	ASSERT (nsync_dll_is_empty_ (n->waiters));
 	parent = n->parent;
@@ -225,7 +234,9 @@ void nsync_note_free (nsync_note n) {
 				   may be past its loop over its children: notify the
 				   child now instead of handing it over un-notified.
 				   This also removes it from n->children.  */
+				child->disconnecting++;
 				note_notify_child (child, n);
+				child->disconnecting--;
 			} else {
 				n->children = nsync_dll_remove_ (n->children,
 								 &child->parent_child_link);
